@@ -310,7 +310,7 @@ def needs_gap(prev: str, nxt: str) -> bool:
 
 
 COMMENT_WORDS = ["c", "note", "x y", "todo: fix", "a | b", "'q'", "é", "1>x", "/* in */", ";", "𝔘𝔘 wide",
-                 "first line\n   second line", "\n * boxed\n * comment\n ", "a\n\nb"]
+                 "first line\n   second line", "\n * boxed\n * comment\n ", "a\n\nb", "\u3000wide blank first", "\u00a0nbsp first"]
 
 
 def random_gap(rng: random.Random, prev: str, nxt: str, toplevel: bool, p_comment=0.25):
@@ -336,7 +336,7 @@ def random_gap(rng: random.Random, prev: str, nxt: str, toplevel: bool, p_commen
                 elif kind < 0.85:
                     parts.append("/*" + w.replace("*/", "* /").replace("/* in */", "in") + "*/")
                 else:
-                    parts.append("/// " + w + "\n")
+                    parts.append("///" + (" " if rng.random() < 0.6 else "") + w + "\n")
             else:
                 parts.append(rng.choice([" ", " ", "  ", "\n", "\n  ", "\t", " \n", "\r\n", "\n\n"]))
         gap = "".join(parts)
